@@ -149,6 +149,11 @@ class Prov:
                         node = None
                 if node is not None and node.get("k") == "Struct":
                     fld = [f for f in node["fields"] if f["name"] == proj[0]]
+                    if not fld and "." in str(proj[0]):
+                        # a struct pattern `S { field, .. }` projects with "S.field"
+                        sname, fname = str(proj[0]).rsplit(".", 1)
+                        if (node["res"].get("path") or node.get("qname") or "").split("::")[-1] == sname.split("::")[-1]:
+                            fld = [f for f in node["fields"] if f["name"] == fname]
                     if fld:
                         out |= self._proj(self.origins(g, fld[0]["e"], r[4], stack), proj[1:], stack)
                         continue
